@@ -180,6 +180,9 @@ impl Property for Univ {
         if self.id == "C19" && case.kind == "xtool" {
             return crate::props::meta::check_xtool(case, vd);
         }
+        if self.id == "C19" && case.kind == "xfresh" {
+            return crate::props::meta::check_xfresh(case, vd);
+        }
         match self.id {
             "C17" => return check_c17(src, vd),
             "C18" => return check_c18(src, vd),
@@ -348,6 +351,7 @@ impl Property for Univ {
             }
             "C19" => {
                 v.push(Box::new(crate::props::meta::ThreadsSweep { seed: mix2(seed, 0x19), batches: if thorough { 96 } else { 12 } }));
+                v.push(Box::new(crate::props::meta::FreshProcessSweep { seed: mix2(seed, 0x1920), batches: if thorough { 64 } else { 8 } }));
                 if let Ok(p) = std::env::var("VERIF_NIGHTLY_BIN") {
                     if std::path::Path::new(&p).exists() {
                         v.push(Box::new(crate::props::meta::ToolchainSweep { seed: mix2(seed, 0x1919), batches: if thorough { 3200 } else { 80 }, other_bin: p.into() }));
